@@ -1,6 +1,215 @@
-//! C18: not implemented yet.
+//! C18: JUMBF manifest stores round-trip canonically.
+//! ops:
+//!   {op:"extract", file}                         -> {r:"ok", jumbf:hex}     manifest store of a fixture
+//!   {op:"build", def, settings?, src, format, alg?, ingredient?} -> {r:"ok", jumbf:hex}   Builder::sign, then extract
+//!   {op:"box", data:hex}     BoxReader::read_super_box on the bytes; canonical tree; write_box; parse+write again
+//!   {op:"store", data:hex}   Store::from_jumbf; to_jumbf_internal; again
+use std::io::Cursor;
+use std::sync::mpsc;
+use std::time::Duration;
+
+use c2pa::verif_hooks::c18::*;
 use serde_json::{json, Value};
 
-pub fn run(_case: &Value) -> Value {
-    json!({"r": "unimplemented"})
+use crate::e2e;
+use crate::util::*;
+
+fn perr(e: &JumbfParseError) -> String {
+    let d = format!("{:?}", e);
+    let end = d.find(|c: char| !(c.is_alphanumeric() || c == '_')).unwrap_or(d.len());
+    d[..end].to_string()
+}
+
+fn opt_hex(o: Option<Vec<u8>>) -> Value {
+    match o {
+        Some(v) => Value::String(hexe(&v)),
+        None => Value::Null,
+    }
+}
+
+fn tree(sb: &JUMBFSuperBox) -> Value {
+    let (uuid, togs, label, id, sig, salt) = sb.desc_box().verif_raw();
+    let mut kids = Vec::new();
+    for i in 0..sb.data_box_count() {
+        let b = sb.data_box(i).expect("child");
+        let a = b.as_any();
+        let v = if let Some(s) = a.downcast_ref::<JUMBFSuperBox>() {
+            tree(s)
+        } else if let Some(x) = a.downcast_ref::<JUMBFJSONContentBox>() {
+            json!({"k": "json", "d": hexe(x.json())})
+        } else if let Some(x) = a.downcast_ref::<JUMBFCBORContentBox>() {
+            json!({"k": "cbor", "d": hexe(x.cbor())})
+        } else if let Some(x) = a.downcast_ref::<JUMBFPaddingContentBox>() {
+            json!({"k": "free", "d": hexe(x.verif_raw())})
+        } else if let Some(x) = a.downcast_ref::<JUMBFCodestreamContentBox>() {
+            json!({"k": "jp2c", "d": hexe(x.data())})
+        } else if let Some(x) = a.downcast_ref::<JUMBFBrotliContentBox>() {
+            json!({"k": "brob", "d": hexe(x.data())})
+        } else if let Some(x) = a.downcast_ref::<JUMBFUUIDContentBox>() {
+            json!({"k": "uuid", "u": hexe(x.uuid()), "d": hexe(x.data())})
+        } else if let Some(x) = a.downcast_ref::<JUMBFEmbeddedFileDescriptionBox>() {
+            let (t, mt, fname) = x.verif_raw();
+            json!({"k": "bfdb", "tog": t, "mt": hexe(&mt), "fn": opt_hex(fname)})
+        } else if let Some(x) = a.downcast_ref::<JUMBFEmbeddedFileContentBox>() {
+            json!({"k": "bidb", "d": hexe(x.data())})
+        } else {
+            json!({"k": "other", "type": hexe(b.box_type())})
+        };
+        kids.push(v);
+    }
+    json!({"k": "super", "uuid": hexe(&uuid), "tog": togs, "label": hexe(&label), "id": id,
+           "sig": opt_hex(sig.map(|s| s.to_vec())), "salt": opt_hex(salt), "c": kids})
+}
+
+/// parse + print + re-serialise, on a helper thread so that a non-terminating parse is reported
+fn parse_once(data: Vec<u8>) -> Result<Result<(Value, Vec<u8>), String>, ()> {
+    let (tx, rx) = mpsc::channel();
+    std::thread::Builder::new()
+        .stack_size(64 << 20)
+        .spawn(move || {
+            let r = std::panic::catch_unwind(|| {
+                let mut cur = Cursor::new(&data[..]);
+                match BoxReader::read_super_box(&mut cur) {
+                    Ok(sb) => {
+                        let t = tree(&sb);
+                        let mut out = Vec::new();
+                        match sb.write_box(&mut out) {
+                            Ok(()) => Ok((t, out)),
+                            Err(e) => Err(format!("WriteError:{e}")),
+                        }
+                    }
+                    Err(e) => Err(perr(&e)),
+                }
+            });
+            let _ = tx.send(match r {
+                Ok(v) => v,
+                Err(_) => Err("Panic".to_string()),
+            });
+        })
+        .expect("spawn");
+    match rx.recv_timeout(Duration::from_secs(6)) {
+        Ok(v) => Ok(v),
+        Err(_) => Err(()),
+    }
+}
+
+fn op_box(case: &Value) -> Value {
+    let data = hexd(&case["data"]);
+    let first = match parse_once(data.clone()) {
+        Err(()) => return json!({"r": "hang"}),
+        Ok(Err(e)) if e == "Panic" => return json!({"r": "panic"}),
+        Ok(Err(e)) => return json!({"r": "err", "kind": e}),
+        Ok(Ok(v)) => v,
+    };
+    let (t1, b1) = first;
+    let mut out = json!({"r": "ok", "tree": t1, "enc": hexe(&b1), "enc_same_as_input": b1 == data});
+    match parse_once(b1.clone()) {
+        Err(()) => out["r2"] = json!("hang"),
+        Ok(Err(e)) => {
+            out["r2"] = json!("err");
+            out["kind2"] = json!(e);
+        }
+        Ok(Ok((t2, b2))) => {
+            out["r2"] = json!("ok");
+            out["tree2_same"] = json!(t2 == out["tree"]);
+            out["enc2_same"] = json!(b2 == b1);
+            if t2 != out["tree"] {
+                out["tree2"] = t2;
+            }
+            if b2 != b1 {
+                out["enc2"] = json!(hexe(&b2));
+            }
+        }
+    }
+    out
+}
+
+fn store_once(data: &[u8]) -> Result<Vec<u8>, String> {
+    let s = verif_store_from_jumbf(data).map_err(|e| format!("from:{}", err_class(&e)))?;
+    verif_store_to_jumbf(&s, 0).map_err(|e| format!("to:{}", err_class(&e)))
+}
+
+fn op_store(case: &Value) -> Value {
+    let data = hexd(&case["data"]);
+    let b1 = match store_once(&data) {
+        Ok(b) => b,
+        Err(e) => return json!({"r": "err", "kind": e}),
+    };
+    let mut out = json!({"r": "ok", "same_as_input": b1 == data, "len1": b1.len()});
+    if b1 != data {
+        out["enc"] = json!(hexe(&b1));
+    }
+    match store_once(&b1) {
+        Ok(b2) => {
+            out["r2"] = json!("ok");
+            out["enc2_same"] = json!(b2 == b1);
+            if b2 != b1 {
+                out["enc2"] = json!(hexe(&b2));
+            }
+        }
+        Err(e) => {
+            out["r2"] = json!("err");
+            out["kind2"] = json!(e);
+        }
+    }
+    out
+}
+
+fn format_of(name: &str) -> String {
+    name.rsplit('.').next().unwrap_or("").to_lowercase()
+}
+
+fn op_extract(case: &Value) -> Value {
+    let name = case["file"].as_str().unwrap_or("");
+    let bytes = e2e::fixture(name);
+    match c2pa::jumbf_io::load_jumbf_from_memory(&format_of(name), &bytes) {
+        Ok(j) => json!({"r": "ok", "jumbf": hexe(&j)}),
+        Err(e) => json!({"r": "err", "kind": err_class(&e)}),
+    }
+}
+
+fn op_build(case: &Value) -> Value {
+    let def = case["def"].as_str().unwrap_or("{}");
+    let settings = case["settings"].as_str();
+    let src_name = case["src"].as_str().unwrap_or("earth_apollo17.jpg");
+    let format = case["format"].as_str().map(|s| s.to_string()).unwrap_or_else(|| format_of(src_name));
+    let alg = case["alg"].as_str().unwrap_or("ed25519");
+    let signer = e2e::signer(alg);
+    let ctx = e2e::context(settings);
+    let src = e2e::fixture(src_name);
+    let r = (|| -> c2pa::Result<Vec<u8>> {
+        let mut builder = c2pa::Builder::from_context(ctx).with_definition(def)?;
+        if let Some(ings) = case["ingredients"].as_array() {
+            for ing in ings {
+                let f = ing["file"].as_str().unwrap_or("CA.jpg");
+                let j = ing["json"].as_str().unwrap_or("{}");
+                let mut s = Cursor::new(e2e::fixture(f));
+                builder.add_ingredient_from_stream(j, &format_of(f), &mut s)?;
+            }
+        }
+        if let Some(res) = case["resources"].as_array() {
+            for r in res {
+                let id = r["id"].as_str().unwrap_or("res");
+                builder.add_resource(id, Cursor::new(hexd(&r["data"])))?;
+            }
+        }
+        let mut input = Cursor::new(src.clone());
+        let mut out = Cursor::new(Vec::new());
+        builder.sign(signer.as_ref(), &format, &mut input, &mut out)?;
+        c2pa::jumbf_io::load_jumbf_from_memory(&format, &out.into_inner())
+    })();
+    match r {
+        Ok(j) => json!({"r": "ok", "jumbf": hexe(&j)}),
+        Err(e) => json!({"r": "err", "kind": err_class(&e), "detail": format!("{e}")}),
+    }
+}
+
+pub fn run(case: &Value) -> Value {
+    match case["op"].as_str().unwrap_or("") {
+        "box" => op_box(case),
+        "store" => op_store(case),
+        "extract" => op_extract(case),
+        "build" => op_build(case),
+        other => json!({"r": "badop", "op": other}),
+    }
 }
